@@ -92,7 +92,7 @@ func checkC10(p *Prog, r *Report) {
 	r.fn(funcName(member))
 
 	kt := buildKindTable(p, newReport("scratch", "quick"))
-	kt.checkSwitchCoverage(r, cv, cv.Params[1], funcName(cv), []string{"[]string"}, "a value of that type is never allowed by any filter")
+	kt.checkSwitchCoverage(r, cv, cv.Params[1], funcName(cv), []string{"[]string"}, "a value of that type is never allowed by any filter", 29)
 
 	helpers := map[*ssa.Function]types.Type{}
 	allTypes := kt.allTypes()
@@ -333,6 +333,9 @@ func evalHelper(p *Prog, h *ssa.Function, op string, ord int, ignoreLoops bool) 
 		sl, sr := side(l), side(rr)
 		if sl == 0 || sr == 0 || sl == sr {
 			return nil
+		}
+		if isTimeType(x.X.Type()) {
+			return nil // == on time.Time compares representation (zone, monotonic clock), not the instant
 		}
 		c := ord
 		if sl == 2 {
@@ -652,4 +655,9 @@ func checkMembership(p *Prog, r *Report, m *ssa.Function) {
 		}
 	})
 	r.decide(full, "C10.in-has", funcName(m)+":full-traversal", p.pos(m.Pos()), "every element from index 0 is compared", "the membership scan does not start at the first element of the list")
+}
+
+func isTimeType(t types.Type) bool {
+	nt, ok := t.(*types.Named)
+	return ok && nt.Obj().Pkg() != nil && nt.Obj().Pkg().Path() == "time" && nt.Obj().Name() == "Time"
 }
